@@ -113,9 +113,15 @@ pub fn judge_tx(tx: &tir::Tx, sig_where: &str, o: &mut Outcome, detail: &Value) 
         }
     }
     // (iii) leaving out a reported parameter is refused by name
-    for p in params.keys() {
+    // (the argument map of a caller may carry keys the template does not use - a protocol-wide map: they must not
+    // make up for the one that is missing)
+    for (p, with_extras) in params.keys().flat_map(|p| [(p, false), (p, true)]) {
         let mut partial = args.clone();
         partial.remove(p);
+        if with_extras {
+            partial.insert("zz_not_used_by_the_template".into(), tx3_tir::reduce::ArgValue::Int(1));
+            partial.insert("aa_not_used_either".into(), tx3_tir::reduce::ArgValue::Bytes(vec![1, 2]));
+        }
         let store = MemStore::new(vec![sample_utxo(0x70)]);
         let mut comp = compiler(&PP::default());
         let res = panics::catch(|| pollster::block_on(tx3_resolver::resolve_tx(AnyTir::V1Beta0(tx.clone()), &partial, &mut comp, &store, 3)));
@@ -132,7 +138,11 @@ pub fn judge_tx(tx: &tir::Tx, sig_where: &str, o: &mut Outcome, detail: &Value) 
                     Ok(_) => "compiled-a-partial-transaction".to_string(),
                     Err(e) => format!("other-error:{}", crate::engine::first_line(&e.to_string(), 40)),
                 };
-                viol(o, format!("missing-arg|not-refused|{sig_where}"), format!("argument {p} withheld but resolve_tx did not return MissingTxArg: {kind}"));
+                viol(
+                    o,
+                    format!("missing-arg|not-refused{}|{sig_where}", if with_extras { "-with-unused-keys" } else { "" }),
+                    format!("argument {p} withheld but resolve_tx did not return MissingTxArg: {kind}"),
+                );
             }
             Err(pn) => {
                 ok = false;
@@ -141,6 +151,48 @@ pub fn judge_tx(tx: &tir::Tx, sig_where: &str, o: &mut Outcome, detail: &Value) 
         }
     }
     ok
+}
+
+/// (iv) closing through the service boundary: a request that supplies every parameter the template holds (found by
+/// the structural walk), each under exactly the spelling the template uses, must hand all of them to the template
+fn judge_through_service(tx: &tir::Tx, o: &mut Outcome, detail: &Value) {
+    let held = unresolved(tx).values;
+    if held.is_empty() {
+        return;
+    }
+    let types = find_params(tx);
+    let mut args = serde_json::Map::new();
+    for name in held.iter() {
+        let v = match types.get(name).map(arg_for) {
+            Some(ArgValue::Int(i)) => json!(i as i64),
+            Some(ArgValue::Bool(b)) => json!(b),
+            Some(ArgValue::Bytes(b)) => json!(hex::encode(b)),
+            Some(ArgValue::Address(b)) => json!(hex::encode(b)),
+            Some(ArgValue::UtxoRef(r)) => json!(format!("{}#{}", hex::encode(r.txid), r.index)),
+            _ => json!(1),
+        };
+        args.insert(name.clone(), v);
+    }
+    let (bytes, _) = tx3_tir::encoding::to_bytes(tx);
+    let doc = json!({"tir": {"content": hex::encode(&bytes), "encoding": "hex", "version": "v1beta0"}, "args": args});
+    o.evals += 1;
+    let Ok(req) = serde_json::from_value::<tx3_resolver::trp::ResolveParams>(doc) else { return };
+    match panics::catch(|| tx3_resolver::trp::parse_resolve_request(req).map(|(_, a)| a.keys().cloned().collect::<Vec<_>>()).map_err(|e| e.to_string())) {
+        Ok(Ok(got)) => {
+            let lost: Vec<&String> = held.iter().filter(|h| !got.contains(h)).collect();
+            if lost.is_empty() {
+                o.class("service:parameters-handed-over");
+            } else {
+                o.class("service:parameters-lost");
+                o.violate(
+                    Violation::new("service|supplied-parameter-not-handed-over|language-level", format!("the template holds {held:?}, all were supplied under those names, the argument map lacks {lost:?}"))
+                        .with_detail(detail.clone()),
+                );
+            }
+        }
+        Ok(Err(_)) => o.class("service:request-refused"),
+        Err(_) => o.class("service:panic(C16)"),
+    }
 }
 
 fn ctx_label(i: Option<usize>) -> &'static str {
@@ -201,7 +253,7 @@ impl Prop for C06 {
         format!(
             "IR level (complete): {} one-level contexts (every Expression / BuiltInOp / CompilerOp / Coerce / Param / InputQuery / AssetExpr / \
              AdHocDirective variant x child slot) and all {} two-level nestings, around each of 4 probes (parameter, query, fees, query holding a \
-             parameter), placed in each of {} Tx fields. Language level: every tx of the corpus (examples + feature bases). Oracle: (i) every \
+             parameter), placed in each of {} Tx fields. Language level: every tx of the corpus (examples + feature bases) and of the spelling generator (<= 1 deviation), also through parse_resolve_request with every held parameter supplied under the template's own spelling. Oracle: (i) every \
              ExpectValue / ExpectInput found by a generic walk of the serialised TIR is in find_params / find_queries; (ii) after apply_args (all \
              reported), apply_fees, apply_inputs (all reported) the walk finds no Expect* node, and none after reduce when reduce succeeds; (iii) \
              resolve_tx with one reported parameter withheld returns MissingTxArg naming it. Non-trivial = the tree contains a probe and was judged; \
@@ -239,6 +291,11 @@ impl Prop for C06 {
         for (name, src) in c13::corpus(tier) {
             sink.case(|| json!({"kind": "program", "file": name, "src": src}));
         }
+        // identifier spellings (parameters, parties, env fields in lower / Capital / camelCase / UPPER / with_9)
+        let mut gen = |c: &mut crate::engine::dbx::Chooser| super::c17::gen_program_pub(c);
+        crate::engine::dbx::explore(1, &mut gen, &mut |choices, _d, src| {
+            sink.case(|| json!({"kind": "program", "file": format!("spelling-{choices:?}"), "src": src}));
+        });
         for probe in PROBES {
             for placement in 0..np {
                 for outer in 0..n {
@@ -261,6 +318,7 @@ impl Prop for C06 {
                         o.evals += 1;
                         let detail = json!({"file": case["file"], "tx": name});
                         judge_tx(&tx, "language-level", &mut o, &detail);
+                        judge_through_service(&tx, &mut o, &detail);
                         o.key(hash64(&(src, name)));
                     }
                 }
